@@ -16,7 +16,12 @@
 //
 // Trace line:  OP ; OUTS ; OBS
 //
-//	OP    H <opts> | U <opts> | UB <opts> K e | UC <opts> | <opts> | SU e | SD e | P e b | X ctx | C
+//	OP    H <opts> | U <opts> | UR <opts> | UB <opts> K e | UC <opts> | <opts> | SU e | SD e | P e b | X ctx | C
+//	      UR: an update whose DialFunc, for endpoints whose server is up, returns the new
+//	      ClientConn only when it is READY (like grpc.WithBlock()): the pool is READY when it
+//	      is registered and stays READY.  Such dials are logged with ok = 2.  The line is
+//	      written when the monitors are idle and every MultiEndpoint knows (bounded as for
+//	      UB), followed by a `P e 1` line per such endpoint.
 //	      UC: two updates: the first dial of update 1 BLOCKS; update 2 is started in a second
 //	      goroutine and is either parked on gme.mu (goroutine stacks) or has returned when the
 //	      dial is released.  Expected outcome: update 1 then update 2 in sequence.  Outputs of
@@ -157,7 +162,7 @@ func (o *vgOpts) String() string {
 
 func (o vgOp) String() string {
 	switch o.kind {
-	case "H", "U":
+	case "H", "U", "UR":
 		return o.kind + " " + o.opts.String()
 	case "UB":
 		return fmt.Sprintf("UB %s K %d", o.opts.String(), o.e)
@@ -253,7 +258,7 @@ func vgParseOp(line string) (vgOp, bool, error) {
 		return vgOp{}, false, nil
 	}
 	switch t[0] {
-	case "H", "U":
+	case "H", "U", "UR":
 		o, err := vgParseOpts(t[1:])
 		if err != nil {
 			return vgOp{}, false, err
@@ -488,6 +493,8 @@ type vgRun struct {
 	waited int64
 	nlines int
 	// blocked dial (UB): the next DialFunc call signals `blocked` and waits for `release`
+	readyDial bool     // UR: DialFunc returns READY connections for endpoints that are up
+	readyEPs  []string // endpoints dialled that way in the current call
 	blockNext bool
 	blocked   chan struct{}
 	release   chan struct{}
@@ -504,6 +511,10 @@ func (r *vgRun) dialFunc(ctx context.Context, target string, dopts ...grpc.DialO
 	r.dials = append(r.dials, d)
 	fail := c.fails[target]
 	vgAdmit[target] = false
+	waitReady := r.readyDial && vgUp[target] && vgLis[target] != nil && !fail
+	if waitReady {
+		vgAdmit[target] = true
+	}
 	block := r.blockNext
 	r.blockNext = false
 	vgMu.Unlock()
@@ -528,6 +539,21 @@ func (r *vgRun) dialFunc(ctx context.Context, target string, dopts ...grpc.DialO
 	vgMu.Lock()
 	d.conn = conn
 	vgMu.Unlock()
+	if waitReady {
+		// like grpc.WithBlock(): hand the connection over only when it is READY
+		t0 := time.Now()
+		for time.Since(t0) < 3*time.Second && conn.GetState() != connectivity.Ready {
+			conn.Connect()
+			time.Sleep(200 * time.Microsecond)
+		}
+		if conn.GetState() == connectivity.Ready {
+			vgMu.Lock()
+			r.readyEPs = append(r.readyEPs, target)
+			vgMu.Unlock()
+			logDial(2)
+			return conn, nil
+		}
+	}
 	logDial(1)
 	return conn, nil
 }
@@ -866,6 +892,52 @@ func vgUpdateParked() bool {
 	return false
 }
 
+// UR: update whose new pools on live endpoints are READY when DialFunc returns them
+func (r *vgRun) updateReady(o vgOp) {
+	r.readyDial, r.readyEPs = true, nil
+	code, dials := r.update(vgOp{kind: "U", opts: o.opts})
+	r.readyDial = false
+	r.outD = dials
+	eps := append([]string{}, r.readyEPs...)
+	sort.Slice(eps, func(i, j int) bool { return vgEPID(eps[i]) < vgEPID(eps[j]) })
+	// "every MultiEndpoint reflects the connectivity of the pools": wait until the monitors are
+	// idle and the MultiEndpoints know about the READY new pools (status sync or first report)
+	t0 := time.Now()
+	var stuck time.Time
+	for time.Since(t0) < 3*time.Second {
+		ok := vgMonitorsQuiescent()
+		all := true
+		for _, ep := range eps {
+			if mc := r.poolOpen(ep); mc != nil && !r.delivered(ep, mc.conn.GetState() == connectivity.Ready) {
+				all = false
+			}
+		}
+		if ok && all {
+			break
+		}
+		if !ok {
+			stuck = time.Time{}
+		} else if stuck.IsZero() {
+			stuck = time.Now()
+		} else if time.Since(stuck) > 500*time.Millisecond {
+			break
+		}
+		time.Sleep(500 * time.Microsecond)
+	}
+	r.waited = int64(time.Since(t0) / time.Millisecond)
+	r.emit(o, code, 0)
+	for _, ep := range eps {
+		if mc := r.poolOpen(ep); mc != nil {
+			b := 0
+			if mc.conn.GetState() == connectivity.Ready {
+				b = 1
+			}
+			r.emit(vgOp{kind: "P", e: vgEPID(ep), b: b}, 0, 0)
+		}
+	}
+	r.admitNew()
+}
+
 // UC: update 1 with a blocked dial, update 2 arriving meanwhile from another goroutine
 func (r *vgRun) updateConcurrent(o vgOp) {
 	r.blocked = make(chan struct{}, 1)
@@ -1058,6 +1130,11 @@ func (r *vgRun) runHistory(h []vgOp) {
 			r.outD = dials
 			r.emit(o, code, 0)
 			r.admitNew()
+		case "UR":
+			if r.gme == nil || r.closed {
+				return
+			}
+			r.updateReady(o)
 		case "UB":
 			if r.gme == nil || r.closed {
 				return
@@ -1317,6 +1394,25 @@ func vgGenHistory(g *vgRng, maxOps int, livePct int) []vgOp {
 			o := vgAddFresh(g, prev)
 			h = append(h, vgOp{kind: "UB", opts: o, e: cands[g.intn(len(cands))]})
 			prev = o
+		case live && x >= 84 && x < 92 && prev != nil:
+			// update that adds a live endpoint whose pool is READY when DialFunc returns it
+			used := map[int]bool{}
+			for _, e := range vgMentioned(prev) {
+				used[e] = true
+			}
+			var cands []int
+			for e := range upSet {
+				if !used[e] {
+					cands = append(cands, e)
+				}
+			}
+			if len(cands) == 0 {
+				continue
+			}
+			sort.Ints(cands)
+			o := vgAddEndpoint(g, prev, cands[g.intn(len(cands))])
+			h = append(h, vgOp{kind: "UR", opts: o})
+			prev = o
 		case x >= 92 && prev != nil:
 			// update 2 arrives while the first dial of update 1 blocks
 			o1 := vgAddFresh(g, prev)
@@ -1432,6 +1528,67 @@ func vgGenFlapScenario(g *vgRng) []vgOp {
 	return h
 }
 
+// the same options with endpoint f added to one MultiEndpoint (front or back) or as a new MultiEndpoint
+func vgAddEndpoint(g *vgRng, prev *vgOpts, f int) *vgOpts {
+	o := vgCopyOpts(prev)
+	if g.pct(70) || len(o.mes) >= 4 {
+		k := g.intn(len(o.mes))
+		if g.pct(60) {
+			o.mes[k].eps = append([]int{f}, o.mes[k].eps...)
+		} else {
+			o.mes[k].eps = append(o.mes[k].eps, f)
+		}
+	} else {
+		usedN := map[int]bool{}
+		for _, m := range o.mes {
+			usedN[m.name] = true
+		}
+		n := 0
+		for usedN[n] {
+			n++
+		}
+		o.mes = append(o.mes, vgME{name: n, eps: []int{f, vgMentioned(prev)[0]}})
+	}
+	return o
+}
+
+// dedicated scenario: live endpoints are added by updates whose DialFunc returns READY pools
+func vgGenReadyScenario(g *vgRng) []vgOp {
+	eps := vgPickDistinct(g, 3, 5)
+	a, b, c := eps[0], eps[1], eps[2]
+	o := &vgOpts{def: 1, mes: []vgME{{name: 1, eps: []int{b}}}}
+	if g.pct(50) {
+		o.mes = append(o.mes, vgME{name: 2, eps: []int{b, c}})
+	}
+	h := []vgOp{{kind: "H", opts: o}}
+	if g.pct(70) {
+		h = append(h, vgOp{kind: "SU", e: b})
+	}
+	h = append(h, vgOp{kind: "SU", e: a})
+	prev := vgAddEndpoint(g, o, a)
+	h = append(h, vgOp{kind: "UR", opts: prev}, vgOp{kind: "X", e: vgProbes[g.intn(4)]})
+	if g.pct(50) {
+		used := false
+		for _, e := range vgMentioned(prev) {
+			if e == c {
+				used = true
+			}
+		}
+		if !used {
+			h = append(h, vgOp{kind: "SU", e: c})
+			prev = vgAddEndpoint(g, prev, c)
+			h = append(h, vgOp{kind: "UR", opts: prev}, vgOp{kind: "X", e: -1})
+		}
+	}
+	if g.pct(40) {
+		h = append(h, vgOp{kind: "SD", e: a}, vgOp{kind: "X", e: -1})
+	}
+	if g.pct(75) {
+		h = append(h, vgOp{kind: "C"})
+	}
+	return h
+}
+
 // dedicated scenario: update 1 keeps/extends the configuration and blocks in its dial; update 2
 // (arriving meanwhile) replaces, shrinks, renames or breaks it
 func vgGenConcScenario(g *vgRng) []vgOp {
@@ -1531,6 +1688,10 @@ func TestVerifGME(t *testing.T) {
 	nflap := vgEnvInt("VERIF_FLAP", 0)
 	for i := 0; i < nflap; i++ {
 		r.runHistory(vgGenFlapScenario(g))
+	}
+	nready := vgEnvInt("VERIF_READY", 0)
+	for i := 0; i < nready; i++ {
+		r.runHistory(vgGenReadyScenario(g))
 	}
 	nconc := vgEnvInt("VERIF_CONC", 0)
 	for i := 0; i < nconc; i++ {
